@@ -451,3 +451,42 @@ func NullNonFinite(v Value) Value {
 }
 
 func decodeRune(s string) (rune, int) { return utf8.DecodeRuneInString(s) }
+
+// Events renders the value as an event stream (integers as int64 / uint64 events, containers with
+// their known length when Len >= 0, optional members included).
+func (v Value) Events(out []Event) []Event {
+	switch v.K {
+	case VNull:
+		return append(out, Nil())
+	case VBool:
+		return append(out, Bool(v.B))
+	case VStr:
+		return append(out, Str(v.S))
+	case VInt:
+		if v.Neg {
+			return append(out, SInt(KInt64, -int64(v.Mag-1)-1))
+		}
+		if v.Mag > 1<<63-1 {
+			return append(out, UInt(KUint64, v.Mag))
+		}
+		return append(out, SInt(KInt64, int64(v.Mag)))
+	case VF32:
+		return append(out, F32(uint32(v.Bits)))
+	case VF64:
+		return append(out, F64(v.Bits))
+	case VArr:
+		out = append(out, ArrStart(len(v.Elems), 0))
+		for _, e := range v.Elems {
+			out = e.Events(out)
+		}
+		return append(out, ArrEnd())
+	case VObj:
+		out = append(out, ObjStart(len(v.Elems), 0))
+		for i, e := range v.Elems {
+			out = append(out, Key(v.Keys[i]))
+			out = e.Events(out)
+		}
+		return append(out, ObjEnd())
+	}
+	panic("Value.Events: unknown kind")
+}
